@@ -64,7 +64,7 @@ def lib_accepts(P, n, p, small):
         return None
 
 
-def check_bloom(ctx, P, n, p, rng, given=None):
+def check_bloom(ctx, P, n, p, rng, given=None, force_counting=False):
     """`given`: the same rate as another numeric type (Decimal, Fraction) - what is handed to the constructor instead of the float p"""
     sz = refimpl.bloom_sizing(n, p)
     if sz is None:
@@ -124,8 +124,13 @@ def check_bloom(ctx, P, n, p, rng, given=None):
             import os
 
             path = os.path.join(ctx.tmpdir(), f"c07-{os.getpid()}-{ctx.counters['bloom.ondisk_constructions']}.blm")
-            pre = rng.choice(["new", "longer", "longer", "shorter", "same_length"])
-            if pre == "longer":
+            pre = rng.choice(["new", "longer", "longer", "shorter", "same_length", "held by an open filter", "held by an open filter"])
+            lingering = None
+            if pre == "held by an open filter":
+                # the path is re-used while an earlier on-disk filter of another request still has it open; that handle is closed LAST
+                lingering = P.BloomFilterOnDisk(path, n * rng.randint(2, 9) + 3, rng.choice([0.2, 0.05, 0.01]))
+                lingering.add("left-over")
+            elif pre == "longer":
                 old = P.BloomFilterOnDisk(path, n * rng.randint(3, 40) + 7, rng.choice([0.2, 0.05, 0.01]))
                 old.add("left-over")
                 old.close()
@@ -136,7 +141,8 @@ def check_bloom(ctx, P, n, p, rng, given=None):
                 with open(path, "wb") as fh:
                     fh.write(b"\xa5" * (f.bloom_length + 20))
             d = P.BloomFilterOnDisk(path, n, p)
-            geo = lambda o: (o.number_bits, o.number_hashes, o.false_positive_rate, o.estimated_elements, o.bloom_length, o.elements_added)
+            geo = lambda o: (o.number_bits, o.number_hashes, o.false_positive_rate, o.estimated_elements, o.bloom_length, o.elements_added if n_in is not None else None)
+            n_in = 0
             ctx.check(geo(d) == (m, k, fpr, n, f.bloom_length, 0), f"on-disk construction (path state: {pre}) has another geometry than the in-memory one {where}", got=geo(d), want=(m, k, fpr, n, f.bloom_length, 0))
             # the filter is USED before it is closed (keys added, cleared, exported): whatever happens to the cells, the geometry the file
             # records - and every reopen derives - stays the one of the request
@@ -159,6 +165,9 @@ def check_bloom(ctx, P, n, p, rng, given=None):
                 os.unlink(cp)
                 ctx.count("bloom.ondisk_filters_used_before_reopen")
             d.close()
+            if lingering is not None:
+                lingering.close()
+                n_in = None  # (the element count a lingering handle leaves in the file is not judged: two writers, one counter)
             ctx.check(os.path.getsize(path) == f.bloom_length + 20, f"backing file of a newly constructed on-disk filter (path state: {pre}) has the wrong length {where}",
                       got=os.path.getsize(path), want=f.bloom_length + 20)
             for how, o in (("on-disk reopen", P.BloomFilterOnDisk(path)), ("filepath load", P.BloomFilter(filepath=path))):
@@ -168,8 +177,8 @@ def check_bloom(ctx, P, n, p, rng, given=None):
             os.unlink(path)
             ctx.count("bloom.ondisk_constructions")
             ctx.count(f"bloom.ondisk_path_state.{pre}")
-        if approx_m <= 3000 and rng.random() < 0.3:
-            c = P.CountingBloomFilter(n, p)
+        if (approx_m <= 3000 and rng.random() < 0.3) or force_counting:
+            c = P.CountingBloomFilter(n, p if given is None else given)
             ctx.check((c.number_bits, c.number_hashes, c.false_positive_rate) == (m, k, fpr), f"counting Bloom geometry differs from plain Bloom {where}")
             ctx.check(c.bloom_length == m and c.export_size() == 4 * m + 20 and len(bytes(c)) == 4 * m + 20, f"counting Bloom lengths inconsistent {where}",
                       bloom_length=c.bloom_length, export_size=c.export_size())
@@ -220,7 +229,7 @@ def wl_bloom_sweep(ctx, rng, case):
     # requests whose geometry changes when the rate is NOT narrowed to single precision, the rate given as a float, a Decimal or a Fraction
     for n_e, text in rng.sample(gen.f32_edge_requests(), 4):
         how, r = gen.spell_rate(rng, text)
-        check_bloom(ctx, P, n_e, float(text), rng, given=None if how == "float" else r)
+        check_bloom(ctx, P, n_e, float(text), rng, given=None if how == "float" else r, force_counting=n_e < 20000)
         ctx.count("bloom.float32_edge_requests")
         ctx.count(f"bloom.rate_given_as.{how}")
     if n <= 5000:
